@@ -154,6 +154,12 @@ MUTANTS = [
     ("boundary_sub_is_add", "bempp_cl/api/assembly/boundary_operator.py", "        return self.__add__(-other)", "        return self.__add__(other)", 0, ["C14"]),
     ("discrete_neg_positive", "bempp_cl/api/assembly/discrete_boundary_operator.py", "return _ScaledDiscreteOperator(self, -1)", "return _ScaledDiscreteOperator(self, 1)", 0, ["C14"]),
     ("blocked_mul_operand_order", "bempp_cl/api/assembly/blocked_operator.py", "return ProductBlockedOperator(self, other)", "return ProductBlockedOperator(other, self)", 0, ["C14"]),
+    ("rwg_edge_table_sentinel", "bempp_cl/api/space/maxwell_spaces.py", "    edge_dofs = -_np.ones(number_of_edges, dtype=_np.int32)", "    edge_dofs = _np.ones(number_of_edges, dtype=_np.int32)", 0, ["C09"]),
+    ("rwg_two_neighbours_flip", "bempp_cl/api/space/maxwell_spaces.py", "                if len(supported_neighbors) == 2:", "                if len(supported_neighbors) != 2:", 0, ["C09"]),
+    ("rwg_boundary_dofs_ignored", "bempp_cl/api/space/maxwell_spaces.py", "                if len(supported_neighbors) == 1 and include_boundary_dofs:", "                if len(supported_neighbors) == 1:", 0, ["C09"]),
+    ("rwg_truncate_flag_inverted", "bempp_cl/api/space/maxwell_spaces.py", "                    if not truncate_at_segment_edge:", "                    if truncate_at_segment_edge:", 0, ["C09"]),
+    ("rwg_alias_guard_flip", "bempp_cl/api/space/maxwell_spaces.py", "            if local_multipliers[element_index, local_index] == 0:\n                dofmap[local_index] = dofmap[first_nonzero]", "            if local_multipliers[element_index, local_index] != 0:\n                dofmap[local_index] = dofmap[first_nonzero]", 0, ["C09"]),
+    ("rwg_numbering_edge_index_swapped", "bempp_cl/api/space/maxwell_spaces.py", "            edge_index = element_edges[local_index, element]\n            if edge_dofs[edge_index] != -1:\n                has_dof = True", "            edge_index = element_edges[element, local_index]\n            if edge_dofs[edge_index] != -1:\n                has_dof = True", 0, ["C09"]),
     ("hyp_guard_trial_dropped", "bempp_cl/api/operators/boundary/laplace.py", "    if dual_to_range.shapeset.identifier != \"p1_discontinuous\":", "    if domain.shapeset.identifier != \"p1_discontinuous\":", 0, ["C06"]),
     ("efield_guard_accepts_bc", "bempp_cl/api/operators/boundary/maxwell.py", "    if domain.identifier != \"rwg0\":", "    if domain.identifier not in (\"rwg0\", \"snc0\"):", 0, ["C06"]),
     ("maxwell_pot_guard_removed", "bempp_cl/api/operators/potential/maxwell.py", "    if space.identifier != \"rwg0\":", "    if space is None:", 1, ["C08"]),
@@ -223,6 +229,7 @@ MUTANTS = [
 
 # behaviour-preserving rewrites: every listed check must stay silent (exit 0)
 EQUIVALENTS = [
+    ("eq_rwg_dofmap_init", "bempp_cl/api/space/maxwell_spaces.py", "        dofmap = -_np.ones(3, dtype=_np.int32)", "        dofmap = _np.zeros(3, dtype=_np.int32)", 0, ["C09", "C16"]),
     ("eq_guard_not_eq", "bempp_cl/api/operators/boundary/maxwell.py", "    if domain.identifier != \"rwg0\":", "    if not (domain.identifier == \"rwg0\"):", 0, ["C06"]),
     ("eq_guard_in_tuple", "bempp_cl/api/operators/potential/maxwell.py", "    if space.identifier != \"rwg0\":", "    if space.identifier not in (\"rwg0\",):", 0, ["C08"]),
     ("eq_cube_power", NK, "output[j] *= -m_inv_4pi / (dist[j] * dist[j] * dist[j])", "output[j] *= -m_inv_4pi / dist[j] ** 3", 0, ["C01", "C05", "C20"]),
